@@ -123,7 +123,22 @@ fn build(raw: Raw, tier: Tier) -> Case {
         let n = g.len();
         (g, n)
     };
-    let _ = &mut gens;
+    // coincident particles (1 case in 16, n >= 3): distinct particles may share a position exactly
+    // (identity is the index); a twin is then the nearest 'other particle' at distance 0. The
+    // sphere clauses look at the set of distinct positions.
+    let mut twins = false;
+    if n >= 3 && raw.p[5] % 16 == 0 {
+        let i = (raw.p[5] as usize / 16) % n;
+        let j = (i + 1 + (raw.p[5] as usize / 4096) % (n - 1)) % n;
+        gens[j] = gens[i];
+        if n >= 6 && raw.p[5] % 32 == 0 {
+            let k3 = (j + 2) % n;
+            if k3 != i {
+                gens[k3] = gens[i];
+            }
+        }
+        twins = true;
+    }
     let k = if n < 2 {
         0
     } else {
@@ -135,9 +150,13 @@ fn build(raw: Raw, tier: Tier) -> Case {
             _ => ((raw.kf * n as f64) as usize).min(n - 1),
         }
     };
+    // with coincident particles k stays below the number of particles at OTHER positions (an
+    // implementation that loses a twin then returns a wrong list instead of searching for ever:
+    // a hang could only be reported as inconclusive)
+    let k = if twins { k.min(n - 3).max(1) } else { k };
     let mut aux_f = vec![mcw];
     aux_f.extend(raw.radii.iter().take(n.min(40)).map(|r| r * r * wmax * 0.2));
-    Case { dim: 3, periodic: false, anchor, width, gens, mask: None, aux_f, aux_i: vec![k as i64], family: ["U", "U", "K", "L", "W"][(raw.kind % 5) as usize].to_string() }
+    Case { dim: 3, periodic: false, anchor, width, gens, mask: None, aux_f, aux_i: vec![k as i64], family: format!("{}{}", ["U", "U", "K", "L", "W"][(raw.kind % 5) as usize], if twins { "+twins" } else { "" }) }
 }
 
 fn strategy(tier: Tier) -> BoxedStrategy<Case> {
@@ -289,7 +308,13 @@ fn finite_sphere(s: &Sphere) -> bool {
 }
 
 pub fn check_spheres(c: &Case, cs: &mut CaseStats) -> Result<(), String> {
-    let pts = c.gens_v();
+    // the set of distinct positions (coincident particles are one point)
+    let pts = {
+        let mut seen = std::collections::BTreeSet::new();
+        let mut p = c.gens_v();
+        p.retain(|g| seen.insert([g.x.to_bits(), g.y.to_bits(), g.z.to_bits()]));
+        p
+    };
     let n = pts.len();
     let scale = pts.iter().map(|p| p.abs().max_element()).fold(0., f64::max).max(c.width_v().max_element());
     let abs = 1e-11 * scale;
@@ -391,7 +416,10 @@ pub fn check_spheres(c: &Case, cs: &mut CaseStats) -> Result<(), String> {
 }
 
 pub fn check(c: &Case, cs: &mut CaseStats) -> Result<(), String> {
-    cs.label(format!("fam:{}", c.family));
+    cs.label(format!("fam:{}", c.family.trim_end_matches("+twins")));
+    if c.family.ends_with("+twins") {
+        cs.label("knn:coincident-particles");
+    }
     let n = c.n();
     cs.label(match n {
         1 => "n=1",
@@ -424,12 +452,12 @@ pub fn check(c: &Case, cs: &mut CaseStats) -> Result<(), String> {
 pub fn def() -> PropDef {
     PropDef {
         id: "C20",
-        rule: "cases: boxes with per-axis widths mantissa x 2^(e + a), e in -12..12, a in 0..6 (aspect to 2^4 quick / 2^6 thorough; the particle list is truncated so that n x 2 (box diagonal / smallest cell width)^4 stays within a fixed work budget, because the library measures search rings with the smallest cell width), anchors 0 / a few widths / 2^20 widths; n = 1..400 (quick) / 600 (thorough) particles strictly inside the half-open box (uniform, clusters of size 1e-1..1e-6, exact lattices with many distance ties, a thin slab near one wall); grid of m = 1..16 (quick) / 1..40 (thorough) cells along the widest axis for n <= 24 (1..8 / 1..12 above) or one single cell; k in {0, 1, n-1, small, any}. k-NN oracle: brute force; the list has k distinct other particles, non-decreasing distances, and the r-th distance equals the r-th smallest distance up to 8 ulp (handling of ties: equidistant particles may be exchanged). Spheres: Epos6 (all points) and Welzl (first <= 60 points) contain every point to 1e-9 relative; Welzl's radius <= (1 + 1e-8) x the brute-force minimum over all spheres through 2, 3, 4 of the points that contain all points (first <= 14 points); Epos6 >= that minimum; Epos6::bounding_sphere_of_spheres (<= 40 spheres with generated radii) contains every sphere. non-trivial: grid with >= 2 cells on >= 2 axes and k >= 1; distinct by case hash; sub-labels non-cubic box, sparse grid, k = n-1, minimality with n >= 5.",
+        rule: "cases: boxes with per-axis widths mantissa x 2^(e + a), e in -12..12, a in 0..6 (aspect to 2^4 quick / 2^6 thorough; the particle list is truncated so that n x 2 (box diagonal / smallest cell width)^4 stays within a fixed work budget, because the library measures search rings with the smallest cell width), anchors 0 / a few widths / 2^20 widths; n = 1..400 (quick) / 600 (thorough) particles strictly inside the half-open box (uniform, clusters of size 1e-1..1e-6, exact lattices with many distance ties, a thin slab near one wall); grid of m = 1..16 (quick) / 1..40 (thorough) cells along the widest axis for n <= 24 (1..8 / 1..12 above) or one single cell; k in {0, 1, n-1, small, any}; 1 case in 16 has two or three distinct particles at bit-identical positions (a twin is the nearest other particle, at distance 0; the sphere clauses then look at the set of distinct positions). k-NN oracle: brute force; the list has k distinct other particles, non-decreasing distances, and the r-th distance equals the r-th smallest distance up to 8 ulp (handling of ties: equidistant particles may be exchanged). Spheres: Epos6 (all points) and Welzl (first <= 60 points) contain every point to 1e-9 relative; Welzl's radius <= (1 + 1e-8) x the brute-force minimum over all spheres through 2, 3, 4 of the points that contain all points (first <= 14 points); Epos6 >= that minimum; Epos6::bounding_sphere_of_spheres (<= 40 spheres with generated radii) contains every sphere. non-trivial: grid with >= 2 cells on >= 2 axes and k >= 1; distinct by case hash; sub-labels non-cubic box, sparse grid, k = n-1, minimality with n >= 5.",
         strategy,
         check,
         cases: |t| t.pick(12_000, 200_000),
         profiles: &["release"],
-        required: &["knn:multi-cell-grid", "knn:non-cubic-box", "knn:sparse-grid", "knn:k=n-1", "spheres:minimality-n>=5", "spheres:of-spheres-n>=5", "n=1"],
+        required: &["knn:multi-cell-grid", "knn:non-cubic-box", "knn:sparse-grid", "knn:k=n-1", "knn:coincident-particles", "spheres:minimality-n>=5", "spheres:of-spheres-n>=5", "n=1"],
         fixed: None,
         assumptions: &["Welzl::bounding_sphere_of_spheres is unimplemented!() by design and never called", "Welzl failures on sets with (nearly) degenerate support (structural predicate c20-degenerate-support on the input: exact lattice, exactly collinear triple / coplanar quadruple, a pair closer than 1e-3 of the extent) are the known finding welzl-degenerate-support: executed with the full oracle, failures counted (welzl_degenerate_support_sets_failing_known_finding), never a verdict; on every other set a Welzl failure is a violation", "the verdict never depends on hash-map iteration order (only the returned sphere is judged)"],
     }
